@@ -22,6 +22,14 @@
  * the same reference.  Reference = hashlib table generated at check time (expected.h); Streebog =
  * ref_streebog.c.
  *
+ * Length-encoding carries (every level): the byte counter of a freshly initialised context is preset to
+ * P = 2^29-B, 2^32-B (bit length / byte count crossing 2^32) and, where the length field is 128 bits
+ * wide (SHA-384/512) 2^61-B, 2^64-B (carry into the high word / into count_hi); Streebog additionally
+ * 2^125-B (carry through two words of its 512-bit bit counter N).  Then m in {0,1,B-1,B,B+1,2B+1}
+ * bytes are absorbed (one update, and 1 | rest) and final must give what the standard's padding rule
+ * yields for a length field of (P+m)*8 bits over the chaining value IV (gen_ref.md_digest, validated
+ * against hashlib on ordinary messages in the same run; ref_streebog_ex for Streebog).
+ *
  * H_LEVEL: 0 quick   : pattern 0: L = 2 blocks+1, alignments {0,1,3,4,8,16,31,32,63}; patterns 1-3: L = 1 block+1, {0,1,31}
  *          1 reduced : pattern 0: L = 3 blocks+1, the same 9 alignments;            patterns 1-3: L = 2 blocks+1, {0,1,31}
  *          2 full    : every pattern L = 4 blocks+1; pattern 0 with all alignments 0..63, patterns 1-3 with the 9
@@ -30,6 +38,7 @@
  */
 #include "hcommon.h"
 #include "expected.h"
+#include "expected_preset.h"
 #include <sys/wait.h>
 
 #if H_LEVEL == 0
@@ -315,9 +324,86 @@ case_oneshot(int ai, int p, size_t n, int str, const int *al, int nal) {
 	return (bad);
 }
 
+static const struct { const int *n; const uint64_t (*p)[2]; const uint8_t *e; } preset_tab[HALG_COUNT] = {
+	{ &npreset_md5, preset_md5, (const uint8_t *)expp_md5 },
+	{ &npreset_sha1, preset_sha1, (const uint8_t *)expp_sha1 },
+	{ &npreset_sha2_224, preset_sha2_224, (const uint8_t *)expp_sha2_224 },
+	{ &npreset_sha2_256, preset_sha2_256, (const uint8_t *)expp_sha2_256 },
+	{ &npreset_sha2_384, preset_sha2_384, (const uint8_t *)expp_sha2_384 },
+	{ &npreset_sha2_512, preset_sha2_512, (const uint8_t *)expp_sha2_512 },
+	{ &npreset_gost, preset_gost, NULL },
+	{ &npreset_gost, preset_gost, NULL },
+};
+
+/* Byte counter preset to P (buffer empty, chaining value = IV), then m more bytes and final. */
+static int
+case_preset(int ai, int v, int j) {
+	const halg_t *A = &halgs[ai];
+	uint64_t lo = preset_tab[ai].p[j][0], hi = preset_tab[ai].p[j][1];
+	size_t ml[6], m, nw;
+	uint8_t want[64], *W, *dg;
+	char hex[2 * 64 + 8];
+	int mi, split, bad = 0;
+
+	ml[0] = 0; ml[1] = 1; ml[2] = A->B - 1; ml[3] = A->B; ml[4] = A->B + 1; ml[5] = 2 * A->B + 1;
+	for (mi = 0; mi < 6; mi ++) {
+		m = ml[mi];
+		if (A->gost_bits) {
+			uint8_t N0[64];
+			int i;
+
+			memset(N0, 0, sizeof(N0));	/* N0 = P * 8 as a 512-bit little-endian number */
+			for (i = 0; i < 8; i ++) {
+				N0[i] = (uint8_t)((lo << 3) >> (8 * i));
+				N0[8 + i] = (uint8_t)(((hi << 3) | (lo >> 61)) >> (8 * i));
+				N0[16 + i] = (uint8_t)((hi >> 61) >> (8 * i));
+			}
+			ref_streebog_ex(A->gost_bits, N0, ref_pat[0], m, want);
+		} else {
+			memcpy(want, preset_tab[ai].e + (((size_t)j * 6) + (size_t)mi) * A->hs, A->hs);
+		}
+		for (split = 0; split < 2; split ++) {
+			void *base;
+			const uint8_t *src = h_src(ref_pat[0], m, h_aligns_sub[(mi + split) % H_NSUB], &base);
+
+			W = (uint8_t *)h_ctx_alloc(A->ctx_size);
+			A->init(W);
+			A->force(W, A->vname[v]);
+			A->set_count(W, lo, hi);
+			if (0 == split || 0 == m) {
+				A->update(W, src, m);
+				h_transitions ++;
+			} else {
+				A->update(W, src, 1);
+				A->update(W, src + 1, m - 1);
+				h_transitions += 2;
+			}
+			dg = (uint8_t *)malloc(A->hs);
+			memset(dg, 0xCC, A->hs);
+			A->final(W, dg);
+			h_transitions ++;
+			if (0 != memcmp(dg, want, A->hs)) {
+				vh_hex(hex, sizeof(hex), dg, A->hs);
+				vh_fail("length-encoding", "m=%zu %s: got %s", m, split ? "updates 1|rest" : "one update", hex);
+				bad = 1;
+			}
+			nw = h_not_wiped(A, W, 0);
+			if (0 != nw) {
+				vh_fail("ctx-not-wiped", "m=%zu: context byte at offset %zu is 0x%02x after final", m, (nw - 1), W[nw - 1]);
+				bad = 1;
+			}
+			free(dg);
+			free(W);
+			free(base);
+		}
+	}
+	return (bad);
+}
+
+
 int
 main(int argc, char **argv) {
-	int ai, v, p, bad, str;
+	int ai, v, p, j, bad, str;
 	size_t n, c;
 
 	vh_init(argc, argv);
@@ -367,6 +453,24 @@ main(int argc, char **argv) {
 				}
 			}
 			h_flush_model(0 == vh_shard && NULL == vh_only_target);
+		}
+
+		/* length-encoding carries from preset byte counters */
+		for (v = 0; v < A->nvar; v ++) {
+			const char *t_preset = h_name(A->pfx, "_final", A->sfx, A->vname[v]);
+			char *t = (char *)malloc(128);
+
+			snprintf(t, 128, "%s/preset-count", t_preset);
+			for (j = 0; j < (*preset_tab[ai].n); j ++) {
+				if (!vh_begin(t))
+					continue;
+				vh_desc("byte counter preset to 0x%llx%016llx", (unsigned long long)preset_tab[ai].p[j][1],
+				    (unsigned long long)preset_tab[ai].p[j][0]);
+				vh_publish_desc();
+				H_GUARDED(bad, case_preset(ai, v, j));
+				if (!bad)
+					vh_nontrivial();
+			}
 		}
 
 		/* one-shot entry points on every prefix (transform = whatever init selects on this CPU) */
